@@ -188,8 +188,8 @@ func TestC03CrashEnum(t *testing.T) {
 		return ps
 	}
 	n := 0
-	maskLimit := pick(24, 128)
-	recLimit := pick(6, 24)
+	maskLimit := pick(16, 128)
+	recLimit := pick(4, 24)
 	for _, start := range starts {
 		for _, pool := range pools(start) {
 			// learn the op sequence
